@@ -23,7 +23,7 @@ CallsOf(f) ==
     [] f = "strReplace" -> {C(f, s, p, q, 0, 0, <<>>) : s \in Strs({97, 98, 233}, MaxLen + 1), p \in {<<97>>, <<97, 97>>, <<>>, <<97, 98>>, <<233>>}, q \in {<<>>, <<120>>, <<97, 97>>, <<128512>>}}
     [] f = "substr" -> {C(f, s, <<>>, <<>>, n, m, <<>>) : s \in Strs({97, 233, 128512}, MaxLen), n \in (0 - 1)..4, m \in (0 - 1)..4}
     [] f = "char" -> {C(f, <<>>, <<>>, <<>>, n, 0, <<>>) : n \in {0 - 1, 0, 65, 233, 55295, 55296, 57343, 57344, 65535, 65536, 128512, 1114111, 1114112}}
-    [] f \in {"parseInt", "parseOctal", "parseHex"} -> {C(f, s, <<>>, <<>>, 0, 0, <<>>) : s \in Strs({48, 49, 55, 56, 57, 97, 70, 71, 45, 43, 32}, MaxLen)}
+    [] f \in {"parseInt", "parseOctal", "parseHex"} -> {C(f, s, <<>>, <<>>, 0, 0, <<>>) : s \in Strs({48, 49, 55, 56, 57, 97, 70, 71, 45, 43, 32, 47, 58, 63, 64, 96, 103}, MaxLen)}   \* incl. the ASCII neighbours of 0-9, A-F, a-f
     [] f = "decodeUTF8" -> {C(f, <<>>, <<>>, <<>>, 0, 0, bs) : bs \in Strs({0, 65, 128, 195, 169, 255, 224}, MaxLen)
                                  \cup {<<240, 159, 152, 128>>, <<226, 130, 172>>, <<240, 159, 152>>, <<237, 160, 128>>, <<192, 128>>, <<65, 226, 130, 172, 66>>}}
     [] f = "base64Bytes" -> {C(f, <<>>, <<>>, <<>>, 0, 0, bs) : bs \in Strs({0, 65, 255, 128}, MaxLen)}
